@@ -226,13 +226,14 @@ def getitem (d : Deque) (E : Externals) (now : Int) (i : Int) : Deque × Out :=
     let (c, o) := d.cache.get E now (keyOfRow E d.cache r) false false false
     ({ d with cache := c }, match o with | .default => .exc "IndexError" | o => o)
 
-/-- `__setitem__(index, value)` -/
+/-- `__setitem__(index, value)`: `self._cache.__setitem__(key, value)`; a value that cannot be
+stored raises (and changes nothing) -/
 def setitem (d : Deque) (E : Externals) (now : Int) (i : Int) (v : PyVal) : Deque × Out :=
   match d.rowAt i with
   | none => (d, .exc "IndexError")
   | some r =>
-    let (c, _) := d.cache.set E now (keyOfRow E d.cache r) v none false .null
-    ({ d with cache := c }, .none)
+    let (c, o) := d.cache.set E now (keyOfRow E d.cache r) v none false .null
+    ({ d with cache := c }, match o with | .exc e => .exc e | _ => .none)
 
 /-- `__delitem__(index)` -/
 def delitem (d : Deque) (E : Externals) (now : Int) (i : Int) : Deque × Out :=
@@ -289,9 +290,16 @@ def reverse (d : Deque) (E : Externals) (now : Int) : Deque × Out :=
   (d3, .none)
 
 
-/-- `extend` / `+=` (left = false) and `extendleft`: one `append` per value, in order -/
+/-- `extend` / `+=` (left = false) and `extendleft`: `for value in iterable: self._append(value)` —
+one `append` per value, in order, stopping at the first one that raises (the values before it
+stay appended, the exception propagates) -/
 def extend (d : Deque) (E : Externals) (now : Int) (vs : List PyVal) (left : Bool) : Deque × Out :=
-  (vs.foldl (fun (acc : Deque) v => (acc.append E now v left).1) d, .none)
+  match vs with
+  | [] => (d, .none)
+  | v :: vs =>
+    match d.append E now v left with
+    | (d1, .exc e) => (d1, .exc e)
+    | (d1, _) => extend d1 E now vs left
 
 /-- `count(value)`: walk the deque, `value == item` -/
 def countOf (d : Deque) (E : Externals) (now : Int) (v : PyVal) : Deque × Out :=
@@ -343,9 +351,11 @@ def getitem (x : Index) (E : Externals) (now : Int) (k : PyVal) : Index × Out :
   let (c, o) := x.cache.get E now k false false false
   ({ cache := c }, keyErr o)
 
+/-- `index[key] = value`: `self._cache[key] = value`; a key or value that cannot be stored raises
+(and changes nothing) -/
 def setitem (x : Index) (E : Externals) (now : Int) (k v : PyVal) : Index × Out :=
-  let (c, _) := x.cache.set E now k v none false .null
-  ({ cache := c }, .none)
+  let (c, o) := x.cache.set E now k v none false .null
+  ({ cache := c }, match o with | .exc e => .exc e | _ => .none)
 
 def delitem (x : Index) (E : Externals) (now : Int) (k : PyVal) : Index × Out :=
   let (c, o) := x.cache.delitem E now k
@@ -374,14 +384,17 @@ def pop (x : Index) (E : Externals) (now : Int) (k : PyVal) (hasDefault : Bool) 
   let (c, o) := x.cache.pop E now k false false
   ({ cache := c }, if hasDefault then o else keyErr o)
 
-/-- `popitem(last)`: peekitem + delete inside one transaction -/
+/-- `popitem(last)`: peekitem + `del _cache[key]` inside one transaction; when the key read back is
+not found again the KeyError leaves the block (rolled back) and propagates -/
 def popitem (x : Index) (E : Externals) (now : Int) (last : Bool) : Index × Out :=
   let c := x.cache.tbegin
   let (c, o) := c.peekitem E now last false false
   match o with
   | .tup [.val k, v] =>
-    let (c, _) := c.delitem E now k
-    ({ cache := c.tend }, .tup [.val k, v])
+    let (c, o2) := c.delitem E now k
+    match o2 with
+    | .exc e => ({ cache := c.traise 1 }, .exc e)
+    | _ => ({ cache := c.tend }, .tup [.val k, v])
   | o => ({ cache := c.traise 1 }, o)
 
 def peekitem (x : Index) (E : Externals) (now : Int) (last : Bool) : Index × Out :=
@@ -409,9 +422,15 @@ def items (x : Index) (E : Externals) (now : Int) : Index × Out :=
   ({ cache := c }, .list outs)
 
 
-/-- `update(pairs)` (MutableMapping): one assignment per pair, in order -/
+/-- `update(pairs)` (MutableMapping): one assignment per pair, in order, stopping at the first one
+that raises (the pairs before it stay assigned, the exception propagates) -/
 def update (x : Index) (E : Externals) (now : Int) (kvs : List (PyVal × PyVal)) : Index × Out :=
-  (kvs.foldl (fun (acc : Index) kv => (acc.setitem E now kv.1 kv.2).1) x, .none)
+  match kvs with
+  | [] => (x, .none)
+  | kv :: kvs =>
+    match x.setitem E now kv.1 kv.2 with
+    | (x1, .exc e) => (x1, .exc e)
+    | (x1, _) => update x1 E now kvs
 
 /-- `values()`: iteration order, each value looked up -/
 def values (x : Index) (E : Externals) (now : Int) : Index × Out :=
